@@ -320,3 +320,11 @@ uint32_t X_memcmp(uint64_t a, uint64_t b, uint64_t n)
     }
     return 0;
 }
+
+#ifdef IR_HOOK_MALLOC
+/* std::malloc / std::free / operator new (nothrow) / operator delete as the harness's OS hook */
+extern uint64_t verif_os_alloc(uint64_t size, uint64_t alignment);
+extern void verif_os_free(uint64_t p, uint64_t size, uint64_t alignment);
+uint64_t X_malloc(uint64_t n) { return verif_os_alloc(n, 16); }
+void X_free(uint64_t p) { verif_os_free(p, 0, 0); }
+#endif
